@@ -3,6 +3,14 @@ import json
 import os
 import sys
 
+# EAR_REPO=<dir> points the checks at another checkout of the repository (scratch worktrees for mutation
+# trials); the default is /repo, whose working tree is what `import ear` resolves to in /venv.
+_repo = os.environ.get("EAR_REPO")
+if _repo:
+    sys.path.insert(0, _repo)
+    import ear  # noqa: E402
+    assert os.path.realpath(ear.__file__).startswith(os.path.realpath(_repo)), ear.__file__
+
 from . import common
 
 
